@@ -31,6 +31,9 @@ type halfPipe struct {
 	failReadAt int64
 	failReadE  error
 	onWrite    func(p []byte)
+	// endWithData: the read that hands out the last bytes also reports the end (n > 0 together with io.EOF or
+	// the injected error), as io.Reader allows and QUIC streams do on FIN
+	endWithData bool
 }
 
 func newHalfPipe() *halfPipe {
@@ -107,6 +110,15 @@ func (h *halfPipe) Read(p []byte) (int, error) {
 	copy(p, h.buf[:n])
 	h.buf = h.buf[n:]
 	h.read += int64(n)
+	if h.endWithData && n > 0 {
+		if h.failReadAt >= 0 && h.read >= h.failReadAt {
+			h.rerr = h.failReadE
+			return n, h.rerr
+		}
+		if len(h.buf) == 0 && h.eof {
+			return n, io.EOF
+		}
+	}
 	return n, nil
 }
 
